@@ -60,6 +60,60 @@ def Circuit.emitsOnly (c : Circuit) (p : Nat) (s : Sig) : Bool :=
   | some l => l.all (· == s)
   | none => false
 
+/-! ## pruning: producers that cannot emit anything an entity reads do not influence it -/
+
+def Sel.has (sel : Sel) (red : Bool) : Bool := if red then sel.red else sel.green
+
+/-- the signals an operand reads on one colour (`none`: a wildcard, i.e. everything) -/
+def Operand.sigsOn (red : Bool) : Operand → Option (List Sig)
+  | .const _ => some []
+  | .ref (.sig s) sel => if sel.has red then some [s] else some []
+  | .ref _ _ => none
+
+def optAppend : Option (List Sig) → Option (List Sig) → Option (List Sig)
+  | some a, some b => some (a ++ b)
+  | _, _ => none
+
+def DOut.sigsOn (red : Bool) (o : DOut) : Option (List Sig) :=
+  match o.sig with
+  | .sig s => if o.copy && o.sel.has red then some [s] else some []
+  | _ => none
+
+/-- the signals whose values on the red (`red`) / green input network can influence what an entity emits
+(`none`: all of them) -/
+def Kind.readSigsOn (red : Bool) : Kind → Option (List Sig)
+  | .arith cfg => optAppend (cfg.first.sigsOn red) (cfg.second.sigsOn red)
+  | .decider cfg =>
+    optAppend
+      (cfg.conds.foldr (fun cd acc => optAppend (optAppend (cd.first.sigsOn red) (cd.second.sigsOn red)) acc) (some []))
+      (cfg.outs.foldr (fun o acc => optAppend (o.sigsOn red) acc) (some []))
+  | .controlled (some cd) => optAppend (cd.first.sigsOn red) (cd.second.sigsOn red)
+  | _ => some []
+
+/-- producer `p` on the red / green input network of entity `i` matters to it: it may emit one of the signals `i`
+reads on that colour -/
+def Circuit.relevant (c : Circuit) (red : Bool) (i p : Nat) : Bool :=
+  match (c.kind i).readSigsOn red with
+  | none => true
+  | some l => l.any (fun s => c.mayEmit p s)
+
+/-- the same circuit with, on every input network of every entity, only the producers that matter to it -/
+def Circuit.prune (c : Circuit) : Circuit :=
+  { c with
+    prodR := (Array.range c.prodR.size).map (fun i => (c.prodR.getD i []).filter (c.relevant true i))
+    prodG := (Array.range c.prodG.size).map (fun i => (c.prodG.getD i []).filter (c.relevant false i)) }
+
+/-- the circuit with the producer lists of the entities outside `S` emptied: what is left is the part `S` depends on -/
+def Circuit.restrict (c : Circuit) (S : List Nat) : Circuit :=
+  { c with
+    prodR := (Array.range c.prodR.size).map (fun i => if S.contains i then c.prodR.getD i [] else [])
+    prodG := (Array.range c.prodG.size).map (fun i => if S.contains i then c.prodG.getD i [] else []) }
+
+/-- every producer of an entity of `S` is in `S` -/
+def Circuit.closedUnder (c : Circuit) (S : List Nat) : Bool :=
+  S.all (fun i => !Circuit.readsInputs (c.kind i) ||
+    ((c.prodR.getD i []).all S.contains && (c.prodG.getD i []).all S.contains))
+
 /-- the producers visible to a selection at entity `i` -/
 def Circuit.selProducers (c : Circuit) (i : Nat) (sel : Sel) : List Nat :=
   (if sel.red then c.prodR.getD i [] else []) ++ (if sel.green then c.prodG.getD i [] else [])
@@ -763,6 +817,19 @@ def inferBindings (c : Circuit) (nodes : Array CNode) (roots : List (Nat × Bind
        | some ea, some eb => b.setIfInBounds n (some (.sum (ea ++ eb) ty))
        | _, _ => b)
     | _, _ => b) b1
+
+/-- entities whose longest-path rank stabilises: they neither lie on a cycle nor depend on one (untrusted; validated
+by `closedUnder` and `checkRanked` on the restricted circuit) -/
+def stableEnts (c : Circuit) : List Nat :=
+  let n := c.n
+  let step (r : Array Nat) : Array Nat :=
+    (Array.range n).map (fun i =>
+      let ps := c.prodR.getD i [] ++ c.prodG.getD i []
+      let isComb := match c.kind i with | .arith _ => true | .decider _ => true | _ => false
+      if isComb then (ps.foldl (fun acc p => max acc (r.getD p 0 + 1)) 0) else 0)
+  let r1 := (List.range (n + 1)).foldl (fun r _ => step r) (Array.replicate n 0)
+  let r2 := (List.range (n + 1)).foldl (fun r _ => step r) r1
+  (List.range n).filter (fun i => r1.getD i 0 == r2.getD i 0)
 
 /-- longest-path rank certificate (untrusted; validated by `checkRanked`) -/
 def computeRank (c : Circuit) : Nat → Nat :=
